@@ -771,3 +771,5 @@ seeded('seeded-RFC17-costs-vector-not-cleared', ['C17', 'C15'], ['C17.cost'])
 seeded('seeded-RFC18-visited-flags-kept-after-timeout', ['C18', 'C07', 'C06'], ['C07.source'])
 seeded('seeded-RFC19-verdict-cache-keyed-on-address', ['C19', 'C20'], ['C20.validity'])
 seeded('seeded-RFC20-last-goal-sample-counts-as-satisfied', ['C20'], ['C20.goal'])
+CASES.append({'name': 'rfc18-buffer-reset-at-query-start', 'props': ['C18'], 'expect': [], 'patch': '/verif/seeded/RFC18/patch.diff',
+              'edits': [('oxmpl/src/geometric/planners/prm.rs', '        self.visited.resize(self.roadmap.len(), false);', '        self.visited.clear();\n        self.visited.resize(self.roadmap.len(), false);')]})
